@@ -16,7 +16,7 @@ Nothing is matched against the spelling of the setters, so a refactoring that ke
 import itertools
 from .. import nf as N
 from .. import pw as P
-from ..interp import Interp, Const, Num, Arr, Seq, Obj, Unsupported, Raised, NeedDecision, NONE
+from ..interp import Interp, Const, Num, Arr, Seq, Obj, Unsupported, Raised, NeedDecision, NONE, explore
 from ..model import AnalysisError
 
 DENS = 'pyPRISM.core.Density::Density'
@@ -55,6 +55,9 @@ def histories(labels, tier):
         out += list(itertools.product(singles, repeat=3))
         # a list assignment in the middle of / after single assignments, and re-assignment of the first type at the end
         out += [(a, l, b) for a in singles for l in lists for b in singles]
+        # every type assigned one by one, then a list key re-assigns several of them at once
+        out += [tuple(singles) + (l,) for l in lists]
+        out += [(a, b, l) for a in singles for b in singles if a != b for l in lists[:4]]
     if n <= 2 or (n == 3 and tier == 'thorough'):
         out += list(itertools.product(singles, repeat=4))
     if n == 4:
@@ -94,9 +97,25 @@ def key_value(k):
     return Seq([label(x) for x in k], 'list')
 
 
+_PRESET = []
+
+
+def _with_preset(after, prog, labels, h, preset):
+    _PRESET[:] = [list(preset)]
+    try:
+        r = after(prog, labels, h)
+    finally:
+        ip = _PRESET.pop() if _PRESET and not isinstance(_PRESET[-1], list) else None
+        _PRESET[:] = []
+    return ip, r
+
+
 class Run(object):
     def __init__(self, prog, qual, labels):
         self.ip = Interp(prog)
+        if _PRESET and isinstance(_PRESET[0], list):
+            self.ip.preset = list(_PRESET[0])
+            _PRESET.append(self.ip)
         self.cls = prog.cls(qual)
         self.labels = labels
         self.o = self.ip.construct(self.cls, [Seq([label(l) for l in labels], 'list')], {})
@@ -276,7 +295,17 @@ def _rule(ctx, rule, qual, after, what):
         bad, und = [], []
         for h in hs:
             try:
-                b = after(ctx.prog, labels, h)
+                try:
+                    b = after(ctx.prog, labels, h)
+                except NeedDecision:
+                    # a data-dependent branch (np.isclose(new, old) ...): every way it can go must give the stated values
+                    b = []
+                    for d_, ip_, r_ in explore(lambda preset: (_with_preset(after, ctx.prog, labels, h, preset)), keep_raised=True):
+                        if ip_ is None:
+                            b.append('raises %s' % r_.exc)
+                        else:
+                            where = ' (when %s)' % ', '.join('%s is %s' % (c.show(), v) for c, v, _ in d_) if d_ else ''
+                            b += [x + where for x in r_]
             except (Unsupported, NeedDecision) as e:
                 und.append('after %s: abstract execution of the real class not possible: %s' % (hist_name(h), e))
                 if len(und) > 2:
